@@ -2,7 +2,7 @@
 # Re-runs every stored seeded change against the current checks: for each seeded/<id>/patch.diff, applies it in ONE
 # scratch worktree of /repo's main, runs the quick tier of the check(s) named in seeded/<id>/meta.json ("checks", default:
 # the property's own check) with VERIF_REPO=<worktree>, expects exit 1.  usage: regress.sh [ids...]
-WT=/tmp/wt_regress
+WT=${WT:-/tmp/wt_regress}
 cd /verif
 git -C /repo worktree remove --force $WT 2>/dev/null
 git -C /repo worktree add --detach $WT main > /dev/null 2>&1 || exit 2
